@@ -21,8 +21,13 @@ minters that sell to buyers: six vending variants, three open-edition variants, 
   leaf claimed by the minter (`stage ‖ sender ‖ allocation`) **is** `leaf`, `leaf` is committed in the tree the
   whitelist folds against *now*, and `(k, i)` is that tree. That is Merkle soundness + completeness (property C14)
   used as an interface; the harness produces real sibling paths with real hashes and the real whitelist verifies them.
+* Every minter message the property does not name (`UpdateMintPrice`, discount, `UpdatePerAddressLimit`, `Purge`,
+  `Shuffle`, `BurnRemaining`, `UpdateStartTradingTime`, sudo `UpdateStatus`) is environment too: `Op.minterEnv` takes
+  over the observable effect (effective public price, limit, mintable count, purged counters) and by construction
+  cannot touch start / end / whitelist / admin; the harness compares exactly those after each such message.
 * Per-address / per-stage counters are modelled (they decide ok/err) but the *limits* are C03's subject; prices are
-  modelled as far as *which price kind is demanded* (C02 owns the disbursement). No discount price (C07).
+  modelled as far as *which price kind is demanded* (C02 owns the disbursement). `Minter.price` is the EFFECTIVE public
+  price (a standing vending discount replaces the configured price; the discount rules themselves are C07's).
 
 Mirrors (under /repo/contracts/):
 * `Wl.activeStage`, `Wl.activeIdx`  ↔ whitelists `query_is_active` / `query_config.is_active` (`start ≤ now < end`),
